@@ -73,6 +73,10 @@ def gen_file(rng, tier, i, mode):
         # raw parentheses cannot be written into a bracket file: only the -LRB- style names
         k["words"] = [w for w in k["words"] if w != "paren"] + ["ascii"]
     tb = model.gen_treebank(rng, k)
+    if rng.random() < 0.04 and mode == "clean":
+        # a long file: crosses the 8192 / 16384 character and byte buffer boundaries
+        k["n_max"] = max(k["n_max"], 5)
+        tb = model.gen_treebank(rng, k, nsent=rng.randint(120, 400), sid_pattern="consecutive")
     if paren and fmt in ("brackets", "discobrackets"):
         for s in tb:
             for t in s["tokens"]:
@@ -183,7 +187,7 @@ def build_spec(sc):
 
 def execute(sc, sim):
     st = cm.Stats()
-    st.declare("file_with_2plus_sentences", "two_readers_same_format_interleaved",
+    st.declare("long_file_crossing_buffer_boundaries", "file_with_2plus_sentences", "two_readers_same_format_interleaved",
                "gzip_source_opened", "utf16_source", "multibyte_char_split_by_short_read",
                "node_with_2plus_gaps", "unary_root", "gf_split_used", "replace_parens_used",
                "emptypos_token", "damage_inside_group", "damage_between_groups",
@@ -226,6 +230,8 @@ def judge_clean(f, recs, st):
     viols = []
     if len(exp) >= 2:
         st.probe("file_with_2plus_sentences")
+    if len(exp) >= 100:
+        st.probe("long_file_crossing_buffer_boundaries")
     if f["enc"] == "utf-16":
         st.probe("utf16_source")
     if "gf_split" in opts:
